@@ -14,14 +14,16 @@ pub struct GenParams {
     pub max_ops: u32,
     pub allow_ex: bool,
     pub fanin: Option<u32>,
+    /// only input and normal nodes (no firewall / projection)
+    pub plain: bool,
 }
 
 impl GenParams {
     pub fn quick() -> Self {
-        GenParams { min_nodes: 3, max_nodes: 12, max_ops: 10, allow_ex: true, fanin: None }
+        GenParams { min_nodes: 3, max_nodes: 12, max_ops: 10, allow_ex: true, fanin: None, plain: false }
     }
     pub fn thorough() -> Self {
-        GenParams { min_nodes: 3, max_nodes: 40, max_ops: 30, allow_ex: true, fanin: None }
+        GenParams { min_nodes: 3, max_nodes: 40, max_ops: 30, allow_ex: true, fanin: None, plain: false }
     }
 }
 
@@ -87,8 +89,8 @@ pub fn gen_program(rng: &mut Rng, p: &GenParams) -> Program {
         nodes.push(Node { kind: Kind::Ex, expr: Expr::Const(vec![]) });
     }
     // per-run bias so that some programs are firewall/projection heavy
-    let fw_w = rng.range(1, 4);
-    let pj_w = rng.range(0, 3);
+    let fw_w = if p.plain { 0 } else { rng.range(1, 4) };
+    let pj_w = if p.plain { 0 } else { rng.range(0, 3) };
     let nm_w = rng.range(2, 6);
     while (nodes.len() as u32) < n {
         let i = nodes.len() as u32;
@@ -247,4 +249,168 @@ pub fn sprinkle(rng: &mut Rng, ops: Vec<Op>, restarts: u32, drains: u32) -> Vec<
         out.insert(pos, Op::Drain);
     }
     out
+}
+
+/// C02: sessions alternating with concurrent request phases.
+pub fn gen_concurrent_history(rng: &mut Rng, prog: &Program, p: &GenParams, fanin: bool) -> Vec<Op> {
+    let ins = prog.of_kind(Kind::In);
+    let mut st = HistState { inputs: ins.iter().map(|n| (*n, vec![], vec![])).collect() };
+    let mut ops = Vec::new();
+    for e in prog.of_kind(Kind::Ex) {
+        ops.push(Op::SetWorld { node: e, val: small_val(rng) });
+    }
+    ops.push(gen_session(rng, prog, &mut st, true));
+    let n = prog.len();
+    let phases = rng.range(2, u64::from(p.max_ops.min(6)));
+    for _ in 0..phases {
+        let roots: Vec<u32> = if fanin {
+            // every caller of the shared callee at once
+            (3..n).collect()
+        } else {
+            let k = rng.range(2, 6);
+            (0..k).map(|_| if rng.chance(1, 2) { n - 1 - rng.below(u64::from(n.min(4))) as u32 } else { rng.below(u64::from(n)) as u32 }).collect()
+        };
+        ops.push(Op::Concurrent { roots, share_tracked: rng.chance(1, 3) });
+        if rng.chance(1, 4) {
+            ops.push(Op::Query { root: rng.below(u64::from(n)) as u32, new_tracked: true });
+        }
+        // make sure sessions change something below the shared callees
+        let mut sess = gen_session(rng, prog, &mut st, false);
+        if let Op::Session { steps, .. } = &mut sess {
+            if steps.is_empty() || fanin {
+                let idx = rng.usize(st.inputs.len());
+                let (node, cur, prev) = &mut st.inputs[idx];
+                let mut v = small_val(rng);
+                if v == *cur {
+                    v = vec![cur.first().copied().unwrap_or(0) + 1];
+                }
+                *prev = cur.clone();
+                *cur = v.clone();
+                steps.push(SessStep::Set { node: *node, val: v });
+            }
+        }
+        ops.push(sess);
+    }
+    ops
+}
+
+/// C04: a setup session, optional queries, then a readers/writer phase.
+pub fn gen_rw_history(rng: &mut Rng, prog: &Program) -> Vec<Op> {
+    let ins = prog.of_kind(Kind::In);
+    let n = prog.len();
+    let mut ops = Vec::new();
+    ops.push(Op::Session {
+        steps: ins.iter().map(|i| SessStep::Set { node: *i, val: vec![i64::from(*i)] }).collect(),
+        commit: true,
+    });
+    for _ in 0..rng.range(0, 3) {
+        ops.push(Op::Query { root: rng.below(u64::from(n)) as u32, new_tracked: rng.chance(1, 2) });
+    }
+    let phases = rng.range(1, 2);
+    let mut stamp = 0i64;
+    for _ in 0..phases {
+        let ns = rng.range(1, 5);
+        let mut sessions = Vec::new();
+        for _ in 0..ns {
+            stamp += 1;
+            let k = rng.range(1, ins.len() as u64);
+            let mut which = ins.clone();
+            rng.shuffle(&mut which);
+            which.truncate(k as usize);
+            let steps = which
+                .iter()
+                .map(|i| SessStep::Set { node: *i, val: vec![100 * stamp + i64::from(*i)] })
+                .collect();
+            sessions.push((steps, rng.chance(7, 10)));
+        }
+        let nr = rng.range(1, 4);
+        let readers = (0..nr)
+            .map(|_| {
+                (0..rng.range(1, 3))
+                    .map(|_| (0..rng.range(1, 3)).map(|_| rng.below(u64::from(n)) as u32).collect())
+                    .collect()
+            })
+            .collect();
+        ops.push(Op::ReadersWriter { sessions, readers });
+        if rng.chance(1, 2) {
+            ops.push(Op::Query { root: rng.below(u64::from(n)) as u32, new_tracked: true });
+        }
+    }
+    ops
+}
+
+/// C05: an ordinary history with one faulted operation in the middle.
+/// `kind`: 0 query cancel, 1 concurrent abort, 2 session call cancel, 3 panic
+pub fn gen_fault_history(rng: &mut Rng, prog: &Program, p: &GenParams, kind: u64) -> Vec<Op> {
+    use crate::scenario::{Fault, Target};
+    let ins = prog.of_kind(Kind::In);
+    let mut st = HistState { inputs: ins.iter().map(|n| (*n, vec![], vec![])).collect() };
+    let n = prog.len();
+    let mut ops = vec![gen_session(rng, prog, &mut st, true)];
+    let root = |rng: &mut Rng| if rng.chance(2, 3) { n - 1 - rng.below(u64::from(n.min(3))) as u32 } else { rng.below(u64::from(n)) as u32 };
+    // some state to repair
+    if rng.chance(2, 3) {
+        ops.push(Op::Query { root: root(rng), new_tracked: true });
+        ops.push(gen_session(rng, prog, &mut st, false));
+    }
+    let faulted = match kind {
+        0 => Op::Faulted {
+            op: Box::new(Op::Query { root: root(rng), new_tracked: true }),
+            fault: Fault::Cancel { target: Target::Query, n: 0 },
+        },
+        1 => Op::Faulted {
+            op: Box::new(Op::Concurrent {
+                roots: (0..rng.range(2, 4)).map(|_| root(rng)).collect(),
+                share_tracked: rng.chance(1, 3),
+            }),
+            fault: Fault::Cancel { target: Target::Query, n: 0 },
+        },
+        2 => {
+            let mut sess = gen_session(rng, prog, &mut st, false);
+            let mut target = Target::Commit;
+            if let Op::Session { steps, commit } = &mut sess {
+                steps.retain(|s| matches!(s, SessStep::Set { .. }));
+                if steps.is_empty() {
+                    let (node, cur, prev) = &mut st.inputs[0];
+                    let v = vec![cur.first().copied().unwrap_or(0) + 1];
+                    *prev = cur.clone();
+                    *cur = v.clone();
+                    steps.push(SessStep::Set { node: *node, val: v });
+                }
+                *commit = true;
+                target = match rng.below(4) {
+                    0 => Target::OpenSession,
+                    1 => Target::Commit,
+                    _ => Target::SessionStep(rng.below(steps.len() as u64) as u32),
+                };
+            }
+            Op::Faulted { op: Box::new(sess), fault: Fault::Cancel { target, n: 0 } }
+        }
+        _ => {
+            let execs: Vec<u32> = (0..n).filter(|i| !matches!(prog.kind(*i), Kind::In | Kind::Ex)).collect();
+            let node = if execs.is_empty() { 0 } else { *rng.pick(&execs) };
+            Op::Faulted {
+                op: Box::new(Op::Query { root: root(rng).max(node), new_tracked: true }),
+                fault: Fault::Panic { node, k: 0 },
+            }
+        }
+    };
+    ops.push(faulted);
+    // the engine must stay fully usable
+    for _ in 0..rng.range(1, u64::from(p.max_ops.min(5))) {
+        match rng.below(3) {
+            0 => ops.push(gen_session(rng, prog, &mut st, false)),
+            _ => ops.push(Op::Query { root: root(rng), new_tracked: rng.chance(1, 2) }),
+        }
+    }
+    // always at least one changing session after the fault
+    {
+        let idx = rng.usize(st.inputs.len());
+        let (node, cur, prev) = &mut st.inputs[idx];
+        let v = vec![cur.first().copied().unwrap_or(0) + 1, 7];
+        *prev = cur.clone();
+        *cur = v.clone();
+        ops.push(Op::Session { steps: vec![SessStep::Set { node: *node, val: v }], commit: true });
+    }
+    ops
 }
